@@ -30,6 +30,7 @@ RULE = ('one evaluation = one simulated run of a sampled full-API workload (1 cl
         'operation in the thorough tier and sampled in the quick tier; non-trivial = a fault fired or clients interleaved; '
         'distinct = SHA-256 of the seam event log')
 RULE += ' ' + 'A third of the injected OS errors last for up to three further calls of the same kind within the operation.'
+RULE += ' ' + 'A third of the lasting OS errors last twelve calls.'
 ASSUMPTIONS = ['one failure per run (fault pairs are not explored)', 'if the injected failure is the unlink itself, that one file may remain (stated allowance)']
 PROBES = ('sqlerr', 'oserr', 'commit_failed', 'unencodable', 'stream_error', 'timeout_seen', 'block_aborted', 'bad_argument', 'interrupt')
 TECHNIQUE = 'deterministic simulation with single-fault enumeration: n-th statement / n-th file call failure over all n of sampled workloads; independent directory auditor + check() at quiescence'
@@ -358,6 +359,8 @@ def run_seed(seed, tier):
             if c['faults'][0]['errno'] in ('EIO', 'EACCES', 'EMFILE', 'ENOSPC') and rng.random() < 0.3:
                 # the condition lasts: every later call of that kind within the operation fails as well
                 c['faults'][0]['lasting'] = True
+                if rng.random() < 0.3:
+                    c['faults'][0]['lasting_calls'] = 12      # ... for longer than the library's own ten attempts at opening a file
         r = runner_guarded(PROPERTY, run_case, copy.deepcopy(c))
         r.pop('counts', None)
         r['case'] = c
